@@ -113,6 +113,8 @@ def catalogue():
                                                                            "pkg/__init__.py": [x.replace(', "pub_helper"', "") for x in fs["pkg/__init__.py"] if x != "from pkg._priv import pub_helper"]},
          ("pkg.pub_helper", "removed", None))
     edit("change-redeclared-attr", False, A, lambda s: _sub(s, "    shared = 2", "    shared = 8"), ("pkg.a.Base.shared", "value was changed", "pkg.a.Base"))
+    # the definition disappears from the private module while the re-export (import + __all__ entry) stays behind, now dangling
+    edit("remove-target-of-reexport", False, P, lambda s: [x for x in s if not x.startswith("def pub_helper")], ("pkg.pub_helper", "removed", None))
     edit("change-attr-value", False, A, lambda s: _sub(s, "    attr = 1", "    attr = 2"), ("pkg.a.K.attr", "value was changed", "pkg.a.K"))
     edit("change-w-value", False, A, lambda s: _sub(s, "w = 2", "w = 5"), ("pkg.a.w", "value was changed", None))
     edit("remove-w", False, A, lambda s: [x for x in s if x != "w = 2"], ("pkg.a.w", "removed", None))
